@@ -32,12 +32,25 @@ HEADER_A = ('From Coq Require Import String ZArith List Bool.\n'
             'From PK Require Import Policy.Policy.\n'
             'From PKGen Require Import DefaultPolicies.\n'
             'Import ListNotations.\nOpen Scope Z_scope.\nOpen Scope string_scope.\n'
-            '(* case: policies, policy name, user, groups, owner, object type, operation, group value for is_allowed,\n'
-            '   observed _is_allowed_by_operation_policy, observed is_allowed *)\n'
-            'Definition chk_dec (c : policies * string * identity * user * Z * Z * bool) : bool :=\n'
-            '  let \'(P, pn, id, owner, ot, op, obs) := c in Bool.eqb (allowed_by_policy P pn id owner ot op) obs.\n'
-            'Definition chk_one (c : policies * string * user * option string * user * Z * Z * bool) : bool :=\n'
-            '  let \'(P, pn, u, g, owner, ot, op, obs) := c in Bool.eqb (is_allowed P pn u g owner ot op) obs.\n')
+            '(* case: policies, policy name, cells; a cell: identity, owner, object type, operation,\n'
+            '   observed _is_allowed_by_operation_policy *)\n'
+            'Definition cell := (identity * user * Z * Z * bool)%type.\n'
+            'Definition cell_ok (P : policies) (pn : string) (c : cell) : bool :=\n'
+            '  let \'(id, owner, ot, op, obs) := c in Bool.eqb (allowed_by_policy P pn id owner ot op) obs.\n'
+            'Definition chk_dec (c : policies * string * list cell) : bool :=\n'
+            '  let \'(P, pn, cells) := c in forallb (cell_ok P pn) cells.\n'
+            'Definition bad_cells (c : policies * string * list cell) : list nat :=\n'
+            '  let \'(P, pn, cells) := c in\n'
+            '  map fst (filter (fun p => negb (cell_ok P pn (snd p))) (combine (seq 0 (length cells)) cells)).\n'
+            '(* is_allowed: user, group value, owner, object type, operation, observed *)\n'
+            'Definition cell1 := (user * option string * user * Z * Z * bool)%type.\n'
+            'Definition cell1_ok (P : policies) (pn : string) (c : cell1) : bool :=\n'
+            '  let \'(u, g, owner, ot, op, obs) := c in Bool.eqb (is_allowed P pn u g owner ot op) obs.\n'
+            'Definition chk_one (c : policies * string * list cell1) : bool :=\n'
+            '  let \'(P, pn, cells) := c in forallb (cell1_ok P pn) cells.\n'
+            'Definition bad_cells1 (c : policies * string * list cell1) : list nat :=\n'
+            '  let \'(P, pn, cells) := c in\n'
+            '  map fst (filter (fun p => negb (cell1_ok P pn (snd p))) (combine (seq 0 (length cells)) cells)).\n')
 
 
 # ============================================================================ printers
@@ -165,13 +178,14 @@ def f11_signature(P, pn, user, groups, owner, ot, op):
 
 
 def decision_cases(ctx, eng):
-    """Every cell of the abstract decision space on the real engine -> Coq cases + direct oracle."""
+    """Every cell of the abstract decision space on the real engine -> Coq cases (one per policy) + direct oracle."""
+    import re
     real = eng.engine
-    header_defs, cases, meta, cases1, meta1 = [], [], [], [], []
+    cases, meta, cases1, meta1 = [], [], [], []
     space = decision_space()
     for k, (label, P, pn) in enumerate(space):
-        header_defs.append('Definition pol_%d : policies := %s.' % (k, c_policies(P)))
         real._operation_policies = P
+        cells, cmeta = [], []
         for (rl, user, owner), groups in itertools.product(REQUESTERS, GROUPS):
             if rl in ('anonymous', 'other-vs-none') and groups not in (None, ['A'], ['']):
                 continue
@@ -179,10 +193,9 @@ def decision_cases(ctx, eng):
             if obs is not True and obs is not False:
                 ctx.disagreement('decision', {'cell': label, 'returned': repr(obs)})
                 obs = bool(obs)
-            cases.append('(pol_%d, "p", %s, %s, %s, %s, %s)' % (k, c_identity(user, groups), c_user(owner),
-                                                                    cp.z(T0.value), cp.z(O0.value), cp.boolean(obs)))
-            meta.append({'cell': label, 'requester': rl, 'user': user, 'owner': owner, 'groups': groups, 'impl': obs})
-            new = ctx.case_seen(('dec', label, rl, groups), nontrivial=True)
+            cells.append('(%s, %s, %s, %s, %s)' % (c_identity(user, groups), c_user(owner), cp.z(T0.value), cp.z(O0.value), cp.boolean(obs)))
+            cmeta.append({'cell': label, 'requester': rl, 'user': user, 'owner': owner, 'groups': groups, 'impl': obs})
+            ctx.case_seen(('dec', label, rl, groups), nontrivial=True)
             ctx.count('decision.%s' % ('allowed' if obs else 'denied'))
             # direct oracle: allowed only if granted
             g = granted_spec(P, pn, user, groups, owner, T0, O0)
@@ -195,42 +208,61 @@ def decision_cases(ctx, eng):
                                   O0.name, T0.name, (user, groups), label))
             if g and not obs:
                 ctx.count('decision.restrictive(granted by the property text, denied by the engine)')
+        cases.append('(%s, %s, [%s])' % (c_policies(P), cp.string(pn), '; '.join(cells)))
+        meta.append(cmeta)
         # is_allowed itself, per group value
+        cells, cmeta = [], []
         for (rl, user, owner), g in itertools.product(REQUESTERS[:2], [None, '', 'A', 'B', 'Z']):
             obs = real.is_allowed(pn, user, g, owner, T0, O0)
             if obs is not True and obs is not False:
                 ctx.disagreement('is_allowed', {'cell': label, 'returned': repr(obs)})
                 obs = bool(obs)
-            cases1.append('(pol_%d, "p", %s, %s, %s, %s, %s, %s)' % (k, c_user(user), cp.option(g, cp.string), c_user(owner),
-                                                                        cp.z(T0.value), cp.z(O0.value), cp.boolean(obs)))
-            meta1.append({'cell': label, 'user': user, 'group': g, 'owner': owner, 'impl': obs})
+            cells.append('(%s, %s, %s, %s, %s, %s)' % (c_user(user), cp.option(g, cp.string), c_user(owner),
+                                                       cp.z(T0.value), cp.z(O0.value), cp.boolean(obs)))
+            cmeta.append({'cell': label, 'user': user, 'group': g, 'owner': owner, 'impl': obs})
             ctx.case_seen(('one', label, rl, g), nontrivial=True)
+        cases1.append('(%s, %s, [%s])' % (c_policies(P), cp.string(pn), '; '.join(cells)))
+        meta1.append(cmeta)
     # the built-in policies, through the generated table
     builtin = copy.deepcopy(core_policy.policies)
     real._operation_policies = builtin
     for pn in list(builtin) + ['nosuch']:
-        for ot, op in itertools.product(list(enums.ObjectType), list(enums.Operation)):
-            for user, groups in (('alice', None), ('bob', None), ('alice', ['A'])):
-                obs = bool(real._is_allowed_by_operation_policy(pn, (user, groups), 'alice', ot, op))
-                cases.append('(default_policies, %s, %s, %s, %s, %s, %s)' % (cp.string(pn), c_identity(user, groups), c_user('alice'),
-                                                                               cp.z(ot.value), cp.z(op.value), cp.boolean(obs)))
-                meta.append({'cell': 'builtin:' + pn, 'user': user, 'owner': 'alice', 'groups': groups, 'ot': ot.name, 'op': op.name, 'impl': obs})
-                ctx.case_seen(('builtin', pn, ot.name, op.name, user, groups), nontrivial=True)
-                ctx.count('decision.builtin.%s' % ('allowed' if obs else 'denied'))
-                if obs and not granted_spec(builtin, pn, user, groups, 'alice', ot, op):
-                    ctx.violation({'class': 'decision', 'site': 'builtin'}, {'policy_name': pn, 'identity': [user, groups], 'owner': 'alice',
-                                                                             'object_type': ot.name, 'operation': op.name},
-                                  'built-in policy %s: engine allows %s on %s without a grant' % (pn, op.name, ot.name))
+        for ot in enums.ObjectType:
+            cells, cmeta = [], []
+            for op in enums.Operation:
+                for user, groups in (('alice', None), ('bob', None), ('alice', ['A'])):
+                    obs = bool(real._is_allowed_by_operation_policy(pn, (user, groups), 'alice', ot, op))
+                    cells.append('(%s, %s, %s, %s, %s)' % (c_identity(user, groups), c_user('alice'), cp.z(ot.value), cp.z(op.value), cp.boolean(obs)))
+                    cmeta.append({'cell': 'builtin:' + pn, 'user': user, 'owner': 'alice', 'groups': groups, 'ot': ot.name, 'op': op.name, 'impl': obs})
+                    ctx.case_seen(('builtin', pn, ot.name, op.name, user, groups), nontrivial=True)
+                    ctx.count('decision.builtin.%s' % ('allowed' if obs else 'denied'))
+                    if obs and not granted_spec(builtin, pn, user, groups, 'alice', ot, op):
+                        ctx.violation({'class': 'decision', 'site': 'builtin'}, {'policy_name': pn, 'identity': [user, groups], 'owner': 'alice',
+                                                                                 'object_type': ot.name, 'operation': op.name},
+                                      'built-in policy %s: engine allows %s on %s without a grant' % (pn, op.name, ot.name))
+            cases.append('(default_policies, %s, [%s])' % (cp.string(pn), '; '.join(cells)))
+            meta.append(cmeta)
     real._operation_policies = eng.policies
-    header = HEADER_A + '\n'.join(header_defs) + '\n'
-    bad = ctx.run_cases('decision', header, cases, 'chk_dec',
-                        what='allowed_by_policy vs KmipEngine._is_allowed_by_operation_policy over the whole abstract decision space + built-in policies')
-    for i in bad[:20]:
-        ctx.disagreement('decision', meta[i], model_says=not meta[i]['impl'], impl_says=meta[i]['impl'])
-    bad1 = ctx.run_cases('is_allowed', header, cases1, 'chk_one', what='is_allowed vs KmipEngine.is_allowed, per group value')
-    for i in bad1[:20]:
-        ctx.disagreement('is_allowed', meta1[i], model_says=not meta1[i]['impl'], impl_says=meta1[i]['impl'])
-    ctx.sample({'decision_case': cases[0], 'meta': meta[0]})
+
+    def explain(name, fn, case, cmeta):
+        out = ctx.model_output(HEADER_A, '%s (%s)' % (fn, case))
+        m = re.search(r'=\s*(\[[^\]]*\]|nil)', out)
+        idx = [int(x) for x in re.findall(r'\d+', m.group(1))] if m and m.group(1) != 'nil' else []
+        for j in idx[:6]:
+            ctx.disagreement(name, cmeta[j], model_says=not cmeta[j]['impl'], impl_says=cmeta[j]['impl'])
+        if not idx:
+            ctx.disagreement(name, {'case': cmeta[0]['cell'], 'note': 'could not identify the cell: ' + out[:300]})
+    bad = ctx.run_cases('decision', HEADER_A, cases, 'chk_dec', shard=40,
+                        what='allowed_by_policy vs KmipEngine._is_allowed_by_operation_policy over the whole abstract decision space '
+                             '(one Coq case per policy shape, %d cells in all) + built-in policies' % sum(len(m) for m in meta))
+    for i in bad[:4]:
+        explain('decision', 'bad_cells', cases[i], meta[i])
+    bad1 = ctx.run_cases('is_allowed', HEADER_A, cases1, 'chk_one', shard=60,
+                         what='is_allowed vs KmipEngine.is_allowed, per group value (%d cells)' % sum(len(m) for m in meta1))
+    for i in bad1[:4]:
+        explain('is_allowed', 'bad_cells1', cases1[i], meta1[i])
+    ctx.sample({'decision_case': cases[0][:600], 'meta': meta[0][0]})
+    ctx.count('decision.cells', sum(len(m) for m in meta) + sum(len(m) for m in meta1))
     return len(space)
 
 
@@ -278,9 +310,9 @@ REQUIRED_OP = {'get': OP.GET, 'get_attributes': OP.GET_ATTRIBUTES, 'get_attribut
 TYPES = [OT.SYMMETRIC_KEY, OT.PUBLIC_KEY, OT.PRIVATE_KEY, OT.CERTIFICATE, OT.SECRET_DATA, OT.OPAQUE_DATA, OT.SPLIT_KEY]
 POLICY_OPS = [OP.GET, OP.GET_ATTRIBUTES, OP.GET_ATTRIBUTE_LIST, OP.ACTIVATE, OP.REVOKE, OP.DESTROY, OP.LOCATE, OP.MODIFY_ATTRIBUTE,
               OP.SET_ATTRIBUTE, OP.DELETE_ATTRIBUTE, OP.DERIVE_KEY, OP.ENCRYPT, OP.DECRYPT, OP.SIGN, OP.SIGNATURE_VERIFY, OP.MAC]
-POLICY_NAMES = [None, 'default', 'public', 'pa', 'pa', 'pb', 'pb', 'pc', 'pc', 'pd', 'pd', 'ghost']
+POLICY_NAMES = [None, None, None, 'default', 'public', 'pa', 'pa', 'pa', 'pb', 'pb', 'pc', 'pc', 'pc', 'pd', 'pd', 'ghost']
 USERS = ['alice', 'bob', 'carol']
-GROUP_MENU = [None, None, None, [], ['G1'], ['G1'], ['G2'], ['G1', 'G2'], ['G2', 'G1'], ['GX'], ['GX', 'G2'], ['']]
+GROUP_MENU = [None, None, None, None, None, None, [], ['G1'], ['G1'], ['G2'], ['G2'], ['G1', 'G2'], ['G2', 'G1'], ['GX'], ['GX', 'G2'], ['']]
 
 
 def random_policies(rng):
@@ -298,9 +330,9 @@ def random_policies(rng):
                 om[op] = rng.choices([PL.ALLOW_ALL, PL.ALLOW_OWNER, PL.DISALLOW_ALL], weights=weights)[0]
             s[t] = om
         return s
-    P['pa'] = {'preset': sec((3, 5, 2)), 'groups': {'G1': sec((5, 3, 2)), 'G2': sec((2, 5, 3))}}
-    P['pb'] = {'groups': {'G1': sec((4, 4, 2)), 'G2': sec((3, 3, 4))}}
-    P['pc'] = {'preset': sec((4, 4, 2))}
+    P['pa'] = {'preset': sec((4, 5, 1)), 'groups': {'G1': sec((6, 3, 1)), 'G2': sec((3, 5, 2))}}
+    P['pb'] = {'groups': {'G1': sec((5, 4, 1)), 'G2': sec((3, 4, 3))}}
+    P['pc'] = {'preset': sec((5, 4, 1))}
     P['pd'] = {'preset': sec((6, 3, 1)), 'groups': {'G2': sec((1, 4, 5), 0.3, 0.3)}}
     if rng.random() < 0.3:
         P['pd']['groups'][''] = sec((1, 1, 8))
@@ -407,10 +439,10 @@ def c_obj(u, row):
     return '{| o_uid := %s; o_type := %s; o_owner := %s; o_pol := %s |}' % (cp.string(u), cp.z(row[0]), c_user(row[1]), cp.string(row[2]))
 
 
-def c_request(it, obs_ok, new, match):
-    return ('{| r_op := %s; r_uid := %s; r_uids := %s; r_wrap := %s; r_pre_ok := %s; r_post_ok := %s; r_match := %s; r_new := %s |}' % (
+def c_request(it, obs_ok, new, match, each_ok=()):
+    return ('{| r_op := %s; r_uid := %s; r_uids := %s; r_each_ok := %s; r_wrap := %s; r_pre_ok := %s; r_post_ok := %s; r_match := %s; r_new := %s |}' % (
         cp.z(KIND_OP[it['k']].value), cp.option(it.get('uid'), cp.string), cp.lst(it.get('uids', []), cp.string),
-        cp.option(it.get('wrap'), cp.string), cp.boolean(not it.get('prefail')), cp.boolean(obs_ok),
+        cp.lst(list(each_ok), cp.boolean), cp.option(it.get('wrap'), cp.string), cp.boolean(not it.get('prefail')), cp.boolean(obs_ok),
         cp.option(match, lambda l: cp.lst(l, cp.string)),
         cp.lst(new, lambda n: '(%s, %s, %s)' % (cp.string(n[0]), cp.z(n[1]), cp.string(n[2])))))
 
@@ -446,7 +478,7 @@ def hist_signature(P, user, groups, row, op, extra):
     return sig
 
 
-def oracle_request(ctx, eng, P, step, resp, rows0, dump0, dump1, notfound_tpl, report):
+def oracle_request(ctx, eng, P, step, resp, rows0, dump0, dump1, notfound_tpl, report, unsuitable):
     """Evaluate the property on one processed request.  `report(sig, detail, what)` records a violation."""
     user, groups = step['user'], step['groups']
     rows = dict(rows0)
@@ -471,6 +503,13 @@ def oracle_request(ctx, eng, P, step, resp, rows0, dump0, dump1, notfound_tpl, r
             if row is None:
                 break                     # not found: the handler stops here
             if granted_spec(P, row[2], user, groups, row[1], OT(row[0]), op):
+                if not ok and r['reason'] == 'PERMISSION_DENIED' and r['message'] == notfound_tpl.replace(NEVER, u):
+                    # the engine is stricter than the property demands here (allowed in the "only if" direction,
+                    # e.g. group information + preset-only policy); the handler stopped at this object
+                    ctx.count('history.restrictive(granted by the property text, refused by the engine)')
+                    break
+                if role == 'derive-base' and unsuitable(u, row):
+                    break                 # DeriveKey checks each base right after loading it and stops at an unsuitable one
                 continue
             any_refused_or_ungranted = True
             where = {'identity': [user, groups], 'item': it, 'role': role, 'object': {'uid': u, 'type': OT(row[0]).name, 'owner': row[1], 'policy': row[2]},
@@ -541,6 +580,11 @@ def run_history(ctx, P, steps, want_case=True, count=False):
         if ref['reason'] != 'ITEM_NOT_FOUND' or NEVER not in (notfound_tpl or ''):
             raise RuntimeError('unexpected answer for an identifier that does not exist: %r' % ref)
         dump0 = eng.dump()
+        pair_made = set()                 # key pairs are created without the DeriveKey mask bit
+        suitable_types = (OT.SECRET_DATA.value, OT.SYMMETRIC_KEY.value, OT.PUBLIC_KEY.value, OT.PRIVATE_KEY.value)
+
+        def unsuitable(u, row):
+            return u in pair_made or row[0] not in suitable_types
         for si, step in enumerate(steps):
             rows0 = rows_of(dump0)
             version = tuple(step['version'])
@@ -551,7 +595,10 @@ def run_history(ctx, P, steps, want_case=True, count=False):
                 raise RuntimeError('request-level error in a generated history: %r' % resp['error'])
             dump1 = eng.dump()
             oracle_request(ctx, eng, P, step, resp, rows0, dump0, dump1, notfound_tpl,
-                           lambda sig, detail, what: viol.append((sig, detail, what, si)))
+                           lambda sig, detail, what: viol.append((sig, detail, what, si)), unsuitable)
+            for it, r in zip(step['items'], resp['items']):
+                if it['k'] == 'create_key_pair' and r['status'] == 'SUCCESS':
+                    pair_made.update(n[0] for n in new_objects(it, r))
             log.append([{k2: r[k2] for k2 in ('op', 'status', 'reason', 'message')} for r in resp['items']])
             if want_case or count:
                 rows_run = dict(rows0)
@@ -565,7 +612,8 @@ def run_history(ctx, P, steps, want_case=True, count=False):
                         match = sorted(u for u, row in rows_run.items() if row[0] == OT[it['type']].value)
                     for n in new:
                         rows_run[n[0]] = (n[1], step['user'], n[2])
-                    c_items.append(c_request(it, ok, new, match))
+                    each_ok = [not (u in rows_run and unsuitable(u, rows_run[u])) for u in it.get('uids', [])]
+                    c_items.append(c_request(it, ok, new, match, each_ok))
                     if r is not None:
                         c_obs.append('{| ob_ok := %s; ob_reason := %s; ob_msg := %s; ob_ids := %s |}' % (
                             cp.boolean(ok), cp.string(r['reason'] or ''), cp.string(r['message'] or ''),
@@ -609,9 +657,16 @@ def gen_history_live(ctx, rng, P, n_steps):
                 return None
             user = rng.choice(USERS)
             groups = rng.choice(GROUP_MENU)
-            if known and rng.random() < 0.35:
-                # aim at the owner of a random object half of the time so that owner-only grants are exercised
-                user = rows[rng.choice(known)][1] or user
+            focus = rng.choice(known) if known else None      # most requests of this step aim at one object ...
+            if focus is not None and rng.random() < 0.6:
+                user = rows[focus][1] or user                  # ... and are made by its owner more often than not
+            if focus is not None and groups not in (None, []) and rows[focus][2] in ('default', 'pc') and rng.random() < 0.7:
+                groups = None                                  # preset-only policies are useless with group information (F10)
+            if focus is not None:
+                base_pick = pick_uid
+
+                def pick_uid(base_pick=base_pick, focus=focus):
+                    return focus if rng.random() < 0.6 else base_pick()
             version = (1, 2)
             items = []
             x = rng.random()
